@@ -362,6 +362,15 @@ def main(ctx: Ctx) -> int:
             limit = ctx.rng.choice([0.5, 5.0, 60.0])
             dead_min = ctx.rng.choice([0.25, 1.0, 10.0])
             ops = gen_history(ctx.rng, limit, dead_min * 60)
+            if h < 3:
+                # corpus: the cut-offs exactly, 1us before and 1us after, for an owner's own heartbeat, a parent-reported one and a claim
+                limit, dead_min = [0.5, 5.0, 60.0][h], [0.25, 1.0, 10.0][h]
+                t, e = dead_min * 60, 0.000001
+                ops = [("claim", 0, RUNNERS[0]), ("start", 0), ("claim", 1, "c1"), ("start", 1), ("hb", [RUNNERS[0]]), ("parent_hb", ["c1"]),
+                       ("adv", t - e), ("scan_running",), ("adv", e), ("scan_running",), ("adv", e), ("scan_running",),
+                       ("hb", [RUNNERS[0]]), ("parent_hb", ["c1"]), ("claim", 2, RUNNERS[1]), ("adv", limit - e), ("scan_pending",),
+                       ("adv", e), ("scan_pending",), ("scan_running",), ("adv", e), ("scan_pending",),
+                       ("recover_pending", True), ("recover_running", True), ("scan_pending",), ("scan_running",)]
             for o in ops:
                 opcount[o[0]] = opcount.get(o[0], 0) + 1
             for kind in ("mem", "sqlite"):
